@@ -413,8 +413,8 @@ import c04 as _c04
            "points, bins, channels, coordinates), counters (also per bin) equal, stored generator equal, sums / adjustment data / bins within "
            "(N+P+4) eps sum|terms|, identical checkpoint text and collective sequence on all ranks, no logical hang. Same harness under "
            "ThreadSanitizer. Plus real mpirun launches (OpenMPI, np 2,3,5; thorough more) of a program comparing per-rank point files with a "
-           "serial run. non-trivial = world>=2 and calls%world!=0 or calls<world; distinct = configuration hash, plus every distinct "
-           "(arrival order, reduction order) pair observed.",
+           "serial run. non-trivial = world>=2 and calls%world!=0 or calls<world; distinct = configuration hash; the number of distinct "
+           "(arrival order, reduction order) pairs observed per run is summed in the counter distinct_schedules_in_run.",
       assumptions=["MPI implementations whose allreduce returns different roundings on different ranks are not modelled (the shim delivers one reduced vector to all ranks)",
                    "world sizes above 33 are not explored; real mpirun covers np <= 5 (quick) / <= 11 (thorough)",
                    "hangs are detected logically by the shim (a rank finished while others wait in a collective), never by wall clock"])
